@@ -1010,6 +1010,10 @@ func (c *UConn) handleRenegotiation() error {
 	c.isHandshakeComplete.Store(false)
 
 	// [uTLS section begins]
+	if c.clientHelloBuildStatus == BuildByGoTLS {
+		// crypto/tls loads the session again for every handshake
+		c.sessionController.loadSessionTracker = NeverCalled
+	}
 	if err = c.BuildHandshakeState(); err != nil {
 		return err
 	}
